@@ -35,7 +35,8 @@ def quilt_cases(draw):
     axis = draw(st.integers(0, 1))
     retain = draw(st.booleans())
     ascending_only = draw(st.integers(0, 3)) < 3
-    blabels = draw(st.sampled_from(['str', 'int', 'str']))   # Bus labels: names, or the integers 0.. (0 is a falsy label)
+    # Bus labels: names, or the integers 0.. (0 is a falsy label); in sorted order or not (the Bus order is what counts)
+    blabels = draw(st.sampled_from(['str', 'int', 'str_unsorted', 'int_unsorted', 'str']))
     backed = draw(st.booleans())
     k = draw(st.sampled_from([3, 2, 1, 4, 5]))
     w = draw(st.integers(1, 4))       # size of the aligned (opposite) axis
@@ -49,7 +50,7 @@ def quilt_cases(draw):
         members.append({'len': ln, 'cols': cols})
     total = sum(m['len'] for m in members)
     case = {'members': members, 'axis': axis, 'retain': retain, 'kinds': kinds, 'op': op, 'max_persist': draw(st.one_of(st.none(), st.integers(1, k))),
-            'backed': backed and blabels == 'str', 'ascending_only': ascending_only, 'blabels': blabels}
+            'backed': backed and blabels.startswith('str'), 'ascending_only': ascending_only, 'blabels': blabels}
     if op in ('iloc', 'loc', 'getitem'):
         if case['ascending_only']:
             case['k0'] = draw(asc_key(total))
@@ -92,12 +93,23 @@ def asc_key(draw, n):
     return slice(None)
 
 
+def _bname(case):
+    kind = case.get('blabels', 'str')
+    if kind == 'int':
+        return lambda q: q
+    if kind == 'int_unsorted':
+        return lambda q: [3, 0, 4, 1, 2][q]
+    if kind == 'str_unsorted':
+        return lambda q: ['north', 'east', 'west', 'a', 'south'][q]
+    return lambda q: 'f%d' % q
+
+
 def _build(case, tmp):
     axis = case['axis']
     w = len(case['kinds'])
     frames = []
     off = 0
-    bname = (lambda q: q) if case.get('blabels') == 'int' else (lambda q: 'f%d' % q)
+    bname = _bname(case)
     for q, m in enumerate(case['members']):
         ln = m['len']
         # member labels along the quilt axis: unique across members unless labels are retained
@@ -241,7 +253,7 @@ def _check_quilt(case, tmp):
         if op == 'hloc':
             if not case['retain']:
                 raise Discard('HLoc only with retained labels')
-            key = sf.HLoc[case['q'] if case.get('blabels') == 'int' else 'f%d' % case['q']]
+            key = sf.HLoc[_bname(case)(case['q'])]
             return obj.loc[key] if axis == 0 else obj.loc[:, key]
         if op == 'iter_array':
             return list(obj.iter_array(axis=case['iaxis']))
